@@ -125,6 +125,25 @@ Theorem C12_never_5xx : forall semver marshal cfg m method size_ok decoded,
 Proof. exact never_5xx. Qed.
 Print Assumptions C12_never_5xx.
 
+(* The length a client DECLARES (Content-Length; -1 = unknown/chunked) is an
+   input of the handler, and the answer does not depend on it: whatever is
+   declared - honest, too short, absurdly large - the request is answered as
+   the property expects for the bytes of its body, and never 5xx.  (The
+   refusal of oversize bodies is decided by the bytes read: size_ok.) *)
+Theorem C12_declared_length_irrelevant : forall semver marshal cfg method d1 d2 size_ok decoded m,
+  handle_http semver marshal cfg method d1 size_ok decoded m =
+  handle_http semver marshal cfg method d2 size_ok decoded m.
+Proof. exact declared_length_irrelevant. Qed.
+Print Assumptions C12_declared_length_irrelevant.
+Theorem C12_http_never_5xx : forall semver marshal cfg m method declared size_ok decoded,
+  upload_store m ->
+  (forall r, decoded = Some r -> g_string (r_xs r) = true) ->
+  handle_http semver marshal cfg method declared size_ok decoded m =
+    expected semver marshal cfg method size_ok decoded m /\
+  fst (handle_http semver marshal cfg method declared size_ok decoded m) <> S5xx.
+Proof. exact http_never_5xx. Qed.
+Print Assumptions C12_http_never_5xx.
+
 (* all request sequences on a bucket that starts as an upload store *)
 Theorem C12_all_request_sequences : forall semver marshal cfg qs m,
   upload_store m -> Forall good_request qs ->
